@@ -127,7 +127,7 @@ func ruleTypeTables(w *core.World, r *core.Report) {
 	// default: the function's last statement returns a non-nil error
 	if f := fn(w, r, "pkg/rdb.NewParser"); f != nil {
 		for _, in := range core.Instrs(f) {
-			if ret, ok := in.(*ssa.Return); ok && len(ret.Results) == 2 && core.IsNilConst(ret.Results[0]) && !core.IsNilConst(ret.Results[1]) {
+			if ret, ok := in.(*ssa.Return); ok && len(ret.Results) == 2 && core.IsNilConst(core.RetVal(ret, 0)) && !core.IsNilConst(core.RetVal(ret, 1)) {
 				defaultErr = true
 			}
 		}
@@ -259,7 +259,7 @@ func ruleDumpFraming(w *core.World, r *core.Report) {
 					hasLen = true
 				}
 			}
-			add(ret.Results[0])
+			add(core.RetVal(ret, 0))
 		}
 		r.Check(sum == 11 && hasLen, "BaseParser.ValueDumpSize", g.Pos(), "payload size must be len(data) + 1 + 2 + 8 (constants sum to %d)", sum)
 	}
@@ -644,7 +644,7 @@ func ruleExpiryPaths(w *core.World, r *core.Report) {
 		}
 		if !one {
 			for _, in := range core.Instrs(g) {
-				if ret, ok := in.(*ssa.Return); ok && len(ret.Results) == 1 && isConstInt(1)(ret.Results[0]) {
+				if ret, ok := in.(*ssa.Return); ok && len(ret.Results) == 1 && isConstInt(1)(core.RetVal(ret, 0)) {
 					one = true
 				}
 			}
@@ -863,7 +863,7 @@ func ruleListpackStep(w *core.World, r *core.Report) {
 					return
 				}
 			}
-			b, ok := core.Unwrap(ret.Results[0]).(*ssa.BinOp)
+			b, ok := core.Unwrap(pt.Resolve(ret.Results[0])).(*ssa.BinOp)
 			if !ok || b.Op != token.ADD || core.Unwrap(b.X) != ssa.Value(p) {
 				undec = "the back-length function must return its argument plus a constant size"
 				return
